@@ -270,6 +270,18 @@ def run(tier, r):
 
 
 def replay(case):
-    v, _ = run_case(case["case"])
+    """re-run in a FRESH interpreter: state leaking between solver instances (class attributes, module globals, shared
+    defaults) also contaminates 'solo' runs made later in the same process, so an in-process replay could miss it"""
+    import json
+    import subprocess
+    code = ("import sys, json; sys.path.insert(0, %r); from oracles import c12; "
+            "case = json.load(sys.stdin); v, _ = c12.run_case(case); "
+            "print('@@' + json.dumps([{k: x[k] for k in x if k != 'case'} for x in v], default=str))" % _H)
+    p = subprocess.run([sys.executable, "-c", code], input=json.dumps(case["case"]), stdout=subprocess.PIPE,
+                       stderr=subprocess.PIPE, text=True, env=dict(os.environ), timeout=600)
+    line = next((l for l in p.stdout.split("\n") if l.startswith("@@")), None)
+    if line is None:
+        return {"reproduced": False, "detail": "replay subprocess failed: " + p.stderr[-500:]}
+    v = json.loads(line[2:])
     same = [x for x in v if x["what"] == case.get("what")]
     return {"reproduced": bool(same), "detail": (same or v)[:2]}
